@@ -7,38 +7,83 @@ package main
 import (
 	"go/constant"
 	"go/token"
+	"go/types"
 
 	"golang.org/x/tools/go/ssa"
 )
 
 type Path struct {
-	Fn     *ssa.Function
-	Blocks []*ssa.BasicBlock
-	Atoms  []Atom
-	Last   []Atom            // atoms contributed by the last branch taken on the path
-	Instrs []ssa.Instruction // every instruction on the path in order
-	Ret    *ssa.Return       // nil if the path ends in panic or was cut
-	Cut    bool              // a back edge was skipped
-	CutTo  *ssa.BasicBlock   // target of the skipped back edge
-	Env    *env
+	Fn      *ssa.Function
+	Blocks  []*ssa.BasicBlock
+	Atoms   []Atom
+	Last    []Atom            // atoms contributed by the last branch taken on the path
+	Instrs  []ssa.Instruction // every instruction on the path in order
+	Ret     *ssa.Return       // nil if the path ends in panic or was cut
+	Cut     bool              // a back edge was skipped
+	CutTo   *ssa.BasicBlock   // target of the skipped back edge
+	Env     *env
+	Stack   []*ssa.Function // inlined callees being walked (innermost last)
+	Inlined []*ssa.Call     // calls that were replaced by the callee's paths
+	Calls   []pathCall      // every call on the path with its argument keys as they were at that point
+}
+
+// pathCall: a call instruction met on the path; Args are the keys of its arguments under the
+// environment in force when it was met (a helper inlined twice binds its parameters anew each time, so
+// reading the arguments at the end of the path would see the last binding only).
+type pathCall struct {
+	Idx  int // index in Instrs
+	Call *ssa.Call
+	Args []string
 }
 
 type pathWalker struct {
-	c     *Ctx
-	fn    *ssa.Function
-	max   int
-	paths []*Path
-	over  bool
+	c      *Ctx
+	fn     *ssa.Function
+	max    int
+	paths  []*Path
+	over   bool
+	inline *InlineOpts
+}
+
+// InlineOpts switches on inlining of helper calls during path enumeration: a call of a module function
+// in the same package as the root, with at least one result, that is not a boolean predicate (those
+// are summarised, summaries.go), not part of a call-graph cycle, and not listed in Keep, is replaced
+// by the helper's own paths. The helper's branch conditions become atoms of the caller's path with
+// the helper's parameters substituted by the caller's arguments, and the call's results stand for
+// the values the helper returned. A rule extracted this way reads the same table whether a case is
+// written in place or behind a helper.
+type InlineOpts struct {
+	Keep  map[*ssa.Function]bool
+	Depth int                        // maximal nesting (default 3)
+	Bool  bool                       // also inline boolean predicates
+	Pred  func(g *ssa.Function) bool // if set, decides which callees are inlined (replaces the result-based default)
 }
 
 // enumPaths enumerates loop-free entry→exit paths. complete=false if more than max paths exist.
 func (c *Ctx) enumPaths(fn *ssa.Function, max int) (paths []*Path, complete bool) {
+	return c.enumPathsOpt(fn, max, nil)
+}
+
+func (c *Ctx) enumPathsInl(fn *ssa.Function, max int, keep ...*ssa.Function) (paths []*Path, complete bool) {
+	o := &InlineOpts{Keep: map[*ssa.Function]bool{}}
+	for _, k := range keep {
+		if k != nil {
+			o.Keep[k] = true
+		}
+	}
+	return c.enumPathsOpt(fn, max, o)
+}
+
+func (c *Ctx) enumPathsOpt(fn *ssa.Function, max int, o *InlineOpts) (paths []*Path, complete bool) {
 	if fn == nil || len(fn.Blocks) == 0 {
 		return nil, true
 	}
-	w := &pathWalker{c: c, fn: fn, max: max}
+	w := &pathWalker{c: c, fn: fn, max: max, inline: o}
 	p := &Path{Fn: fn, Env: newEnv()}
-	w.walk(fn.Blocks[0], nil, p, map[*ssa.BasicBlock]bool{})
+	w.enter(fn.Blocks[0], nil, p, map[*ssa.BasicBlock]bool{}, func(p *Path, ret *ssa.Return) {
+		p.Ret = ret
+		w.emit(p)
+	})
 	return w.paths, !w.over
 }
 
@@ -47,10 +92,34 @@ func (p *Path) fork() *Path {
 	n.Blocks = append([]*ssa.BasicBlock(nil), p.Blocks...)
 	n.Atoms = append([]Atom(nil), p.Atoms...)
 	n.Instrs = append([]ssa.Instruction(nil), p.Instrs...)
+	n.Stack = append([]*ssa.Function(nil), p.Stack...)
+	n.Inlined = append([]*ssa.Call(nil), p.Inlined...)
+	n.Calls = append([]pathCall(nil), p.Calls...)
 	return n
 }
 
-func (w *pathWalker) walk(b, pred *ssa.BasicBlock, p *Path, on map[*ssa.BasicBlock]bool) {
+// wasInlined: the call was replaced by its callee's paths on this path.
+func (c *Ctx) wasInlined(p *Path, call *ssa.Call) bool {
+	for _, x := range p.Inlined {
+		if x == call {
+			return true
+		}
+	}
+	return false
+}
+
+// frameK: what happens when the frame being walked returns.
+type frameK func(p *Path, ret *ssa.Return)
+
+func copyOn(on map[*ssa.BasicBlock]bool) map[*ssa.BasicBlock]bool {
+	n := make(map[*ssa.BasicBlock]bool, len(on))
+	for k, v := range on {
+		n[k] = v
+	}
+	return n
+}
+
+func (w *pathWalker) enter(b, pred *ssa.BasicBlock, p *Path, on map[*ssa.BasicBlock]bool, k frameK) {
 	if w.over {
 		return
 	}
@@ -72,53 +141,127 @@ func (w *pathWalker) walk(b, pred *ssa.BasicBlock, p *Path, on map[*ssa.BasicBlo
 				break
 			}
 			if idx >= 0 {
-				newPhi[ph] = w.c.resolve(ph.Edges[idx], p.Env)
+				v, e2 := w.c.resolveE(ph.Edges[idx], p.Env)
+				if e2 != p.Env {
+					// the value lives in an inlined callee's frame: keep the indirection
+					v = ph.Edges[idx]
+					if pv, ok := v.(*ssa.Phi); ok {
+						if r, ok := p.Env.phi[pv]; ok {
+							v = r
+						}
+					}
+				}
+				newPhi[ph] = v
 			}
 		}
 		for k, v := range newPhi {
 			p.Env.phi[k] = v
 		}
 	}
-	for _, in := range b.Instrs {
+	w.run(b, 0, p, on, k)
+}
+
+func (w *pathWalker) run(b *ssa.BasicBlock, start int, p *Path, on map[*ssa.BasicBlock]bool, k frameK) {
+	for i := start; i < len(b.Instrs); i++ {
+		in := b.Instrs[i]
 		p.Instrs = append(p.Instrs, in)
 		switch x := in.(type) {
 		case *ssa.Store:
 			if a, ok := x.Addr.(*ssa.Alloc); ok {
-				p.Env.mem[a] = w.c.resolve(x.Val, p.Env)
+				v, e2 := w.c.resolveE(x.Val, p.Env)
+				if e2 != p.Env {
+					v = x.Val
+				}
+				p.Env.mem[a] = v
+			}
+		case *ssa.Call:
+			{
+				pc := pathCall{Idx: len(p.Instrs) - 1, Call: x}
+				for _, a := range x.Call.Args {
+					pc.Args = append(pc.Args, w.c.key(a, p.Env))
+				}
+				p.Calls = append(p.Calls, pc)
+			}
+			if g := w.inlineTarget(x, p); g != nil {
+				if p.Env.par == nil {
+					p.Env.par = map[*ssa.Parameter]ssa.Value{}
+				}
+				args := x.Call.Args
+				if len(args) == len(g.Params) {
+					for j, a := range args {
+						p.Env.par[g.Params[j]] = a
+					}
+				}
+				p.Stack = append(p.Stack, g)
+				p.Inlined = append(p.Inlined, x)
+				depth := len(p.Stack)
+				onCaller := copyOn(on)
+				next := i + 1
+				w.enter(g.Blocks[0], nil, p, map[*ssa.BasicBlock]bool{}, func(p2 *Path, ret *ssa.Return) {
+					snap := p2.Env.clone()
+					if p2.Env.res == nil {
+						p2.Env.res = map[ssa.Value]binding{}
+					}
+					if len(ret.Results) == 1 {
+						p2.Env.res[x] = binding{ret.Results[0], snap}
+					} else if refs := x.Referrers(); refs != nil {
+						for _, ref := range *refs {
+							if ex, ok := ref.(*ssa.Extract); ok && ex.Index < len(ret.Results) {
+								p2.Env.res[ex] = binding{ret.Results[ex.Index], snap}
+							}
+						}
+					}
+					p2.Stack = p2.Stack[:depth-1]
+					w.run(b, next, p2, copyOn(onCaller), k)
+				})
+				return
 			}
 		case *ssa.Return:
-			p.Ret = x
-			w.emit(p)
+			k(p, x)
 			return
 		case *ssa.Panic:
 			w.emit(p)
 			return
 		case *ssa.Jump:
-			w.next(b, b.Succs[0], p, on)
+			w.next(b, b.Succs[0], p, on, k)
 			return
 		case *ssa.If:
 			cond := w.c.resolve(x.Cond, p.Env)
-			if k, ok := cond.(*ssa.Const); ok && k.Value != nil && k.Value.Kind() == constant.Bool {
-				if constant.BoolVal(k.Value) {
-					w.next(b, b.Succs[0], p, on)
+			if kc, ok := cond.(*ssa.Const); ok && kc.Value != nil && kc.Value.Kind() == constant.Bool {
+				if constant.BoolVal(kc.Value) {
+					w.next(b, b.Succs[0], p, on, k)
 				} else {
-					w.next(b, b.Succs[1], p, on)
+					w.next(b, b.Succs[1], p, on, k)
+				}
+				return
+			}
+			if v, ok := w.c.foldCmp(x.Cond, p.Env); ok {
+				if v {
+					w.next(b, b.Succs[0], p, on, k)
+				} else {
+					w.next(b, b.Succs[1], p, on, k)
 				}
 				return
 			}
 			tAtoms := w.c.atoms(x.Cond, true, p.Env)
 			fAtoms := w.c.atoms(x.Cond, false, p.Env)
+			for i := range tAtoms {
+				tAtoms[i].Env = p.Env // p is dead after the fork below, so this environment is frozen
+			}
+			for i := range fAtoms {
+				fAtoms[i].Env = p.Env
+			}
 			if !contradicts(p.Atoms, tAtoms) {
 				q := p.fork()
 				q.Atoms = append(q.Atoms, tAtoms...)
 				q.Last = tAtoms
-				w.next(b, b.Succs[0], q, on)
+				w.next(b, b.Succs[0], q, on, k)
 			}
 			if !contradicts(p.Atoms, fAtoms) {
 				q := p.fork()
 				q.Atoms = append(q.Atoms, fAtoms...)
 				q.Last = fAtoms
-				w.next(b, b.Succs[1], q, on)
+				w.next(b, b.Succs[1], q, on, k)
 			}
 			return
 		}
@@ -127,14 +270,14 @@ func (w *pathWalker) walk(b, pred *ssa.BasicBlock, p *Path, on map[*ssa.BasicBlo
 	w.emit(p)
 }
 
-func (w *pathWalker) next(from, to *ssa.BasicBlock, p *Path, on map[*ssa.BasicBlock]bool) {
+func (w *pathWalker) next(from, to *ssa.BasicBlock, p *Path, on map[*ssa.BasicBlock]bool, k frameK) {
 	if on[to] {
 		p.Cut = true
 		p.CutTo = to
 		w.emit(p)
 		return
 	}
-	w.walk(to, from, p, on)
+	w.enter(to, from, p, on, k)
 }
 
 func (w *pathWalker) emit(p *Path) {
@@ -143,6 +286,169 @@ func (w *pathWalker) emit(p *Path) {
 		return
 	}
 	w.paths = append(w.paths, p)
+}
+
+// inlineTarget decides whether the call is replaced by the callee's paths.
+func (w *pathWalker) inlineTarget(call *ssa.Call, p *Path) *ssa.Function {
+	o := w.inline
+	if o == nil {
+		return nil
+	}
+	g := w.c.calleeE(call, p.Env)
+	if g == nil || g == w.fn || len(g.Blocks) == 0 || !inModule(g) || o.Keep[g] || w.c.semanticUnit(g) {
+		return nil
+	}
+	if fnPkgPath(g) != fnPkgPath(w.fn) {
+		return nil
+	}
+	depth := o.Depth
+	if depth == 0 {
+		depth = 3
+	}
+	if len(p.Stack) >= depth {
+		return nil
+	}
+	for _, s := range p.Stack {
+		if s == g {
+			return nil
+		}
+	}
+	rs := g.Signature.Results()
+	if o.Pred != nil {
+		if !o.Pred(g) {
+			return nil
+		}
+	} else {
+		if rs.Len() == 0 {
+			return nil
+		}
+		if rs.Len() == 1 && isBool(rs.At(0).Type()) && !o.Bool {
+			return nil
+		}
+	}
+	if len(call.Call.Args) != len(g.Params) || g.Signature.Variadic() && false {
+		return nil
+	}
+	if w.c.inCycleAvoiding(g, w.fn, o.Keep) {
+		return nil
+	}
+	n := 0
+	for _, b := range g.Blocks {
+		n += len(b.Instrs)
+	}
+	if n > 400 {
+		return nil
+	}
+	return g
+}
+
+// semanticUnit: helpers the rules reason about as a whole and therefore never inline — the numeric
+// bound parsers of the range render functions (role: driver function returning (N, N, error) for a
+// numeric N; the range rules classify a path by which of them succeeded).
+func (c *Ctx) semanticUnit(g *ssa.Function) bool {
+	if fnPkgPath(g) != pkgDriver {
+		return false
+	}
+	rs := g.Signature.Results()
+	if rs.Len() != 3 || !isErrorType(rs.At(2).Type()) || !types.Identical(rs.At(0).Type(), rs.At(1).Type()) {
+		return false
+	}
+	b, ok := rs.At(0).Type().Underlying().(*types.Basic)
+	return ok && b.Info()&types.IsNumeric != 0
+}
+
+// calleeE: the function a call invokes — statically, or through a parameter bound to a function value
+// by an inlined call.
+func (c *Ctx) calleeE(call *ssa.Call, e *env) *ssa.Function {
+	if f := call.Call.StaticCallee(); f != nil {
+		return f
+	}
+	if call.Call.IsInvoke() {
+		return nil
+	}
+	switch x := c.resolve(call.Call.Value, e).(type) {
+	case *ssa.Function:
+		return x
+	case *ssa.MakeClosure:
+		if f, ok := x.Fn.(*ssa.Function); ok && len(x.Bindings) == 0 {
+			return f
+		}
+	}
+	return nil
+}
+
+// inCycleAvoiding: f can reach itself through static calls without passing through root or a kept
+// function (those are never inlined, so recursion through them does not unfold).
+func (c *Ctx) inCycleAvoiding(f, root *ssa.Function, keep map[*ssa.Function]bool) bool {
+	if !c.inCycle(f) {
+		return false
+	}
+	seen := map[*ssa.Function]bool{}
+	var visit func(g *ssa.Function) bool
+	visit = func(g *ssa.Function) bool {
+		for _, b := range g.Blocks {
+			for _, in := range b.Instrs {
+				call, ok := in.(ssa.CallInstruction)
+				if !ok {
+					continue
+				}
+				sc := staticCallee(call)
+				if sc == nil || !inModule(sc) || sc == root || keep[sc] {
+					continue
+				}
+				if sc == f {
+					return true
+				}
+				if !seen[sc] {
+					seen[sc] = true
+					if visit(sc) {
+						return true
+					}
+				}
+			}
+		}
+		return false
+	}
+	return visit(f)
+}
+
+// inCycle: f can reach itself through static calls (module functions only).
+func (c *Ctx) inCycle(f *ssa.Function) bool {
+	if c.cycleMemo == nil {
+		c.cycleMemo = map[*ssa.Function]bool{}
+	}
+	if v, ok := c.cycleMemo[f]; ok {
+		return v
+	}
+	seen := map[*ssa.Function]bool{}
+	var visit func(g *ssa.Function) bool
+	visit = func(g *ssa.Function) bool {
+		for _, b := range g.Blocks {
+			for _, in := range b.Instrs {
+				call, ok := in.(ssa.CallInstruction)
+				if !ok {
+					continue
+				}
+				sc := staticCallee(call)
+				if sc == nil || !inModule(sc) {
+					continue
+				}
+				if sc == f {
+					return true
+				}
+				if !seen[sc] {
+					seen[sc] = true
+					if visit(sc) {
+						return true
+					}
+				}
+			}
+		}
+		return false
+	}
+	r := visit(f)
+	c.cycleMemo[f] = r
+	return r
 }
 
 // contradicts: would adding `add` to `have` be unsatisfiable by the simple syntactic rules?
